@@ -1,4 +1,4 @@
-(* C04, C05, C07, C10 at dimensionality 0 -- rank-0 owning arrays (static_array<T, 0, A> / array<T, 0, A>) and rank-0 references
+(* C04, C05, C07, C09, C10 at dimensionality 0 -- rank-0 owning arrays (static_array<T, 0, A> / array<T, 0, A>) and rank-0 references
    (array_ref<T, 0>, subarray<T, 0>, const versions).  Model: Model/LifeRank0.v (programs over the checked micro-steps of
    Model/Life.v).  This file holds only the property theorems, each closed by `exact`, with Print Assumptions.
    Every theorem holds for every configuration cfg: element kind (trivially default constructible / trivially destructible /
@@ -341,3 +341,27 @@ Theorem C10_rank0_elementwise_keeps_allocators :
   forall cfg o s s', elementwise o -> step0 cfg o s = Ok tt s' -> s_arrs s' = s_arrs s.
 Proof. exact elementwise_keeps_objects0. Qed.
 Print Assumptions C10_rank0_elementwise_keeps_allocators.
+
+(* ================================ C09: failures at dimensionality 0 ================================ *)
+(* For every configuration (element traits, allocator traits), every history of rank-0 operations in its domain and every
+   single injection point k (the k-th fallible event -- allocation, element construction, copy / move construction or
+   assignment -- throws): if the fault fired at an allocation or inside an element assignment (ok_site: not while an element
+   is constructed into a block that no array object owns yet), then the exception reached the caller (the run goes on, no
+   step is OutErr), the temporaries have been unwound and Good holds: no block and no element is leaked, nothing is destroyed
+   or released twice, every array object of the pool is valid (one live constructed cell on a block of its own allocator).
+   What is NOT proved here: that the failed operation leaves each array with its OLD or its NEW value -- the refinement to
+   values (C04_rank0_value_semantics) is proved for fault-free histories only; the tie compares the elements of every object
+   after every failed operation with the extracted machine run under the same fault oracle. *)
+Theorem C09_rank0_fault_safety :
+  forall cfg (h : list lop0) k, hist_dom0 cfg h (st0 (Some k)) ->
+    let '(outs, s') := run_rank0 cfg h (st0 (Some k)) in
+    (forall w, In (EvThrow w) (s_ledger s') -> ok_site w) -> Good cfg s' /\ Forall not_err outs.
+Proof. exact f_history_invariant_fault. Qed.
+Print Assumptions C09_rank0_fault_safety.
+
+(* without the exclusion the statement is false: array<E, 0, A>(E{7}, A{1}) whose element copy throws leaks the block it
+   allocated in the mem-initializer (every allocating rank-0 constructor has this shape; the rank >= 1 finding
+   KF-C09-ctor-element-throw-leaks-block, present at rank 0: proposed KF-C09-rank0-ctor-element-throw-leaks-block) *)
+Theorem C09_rank0_ctor_leak_refuted : ~ C09_rank0_full.
+Proof. exact ctor_leak_refuted0. Qed.
+Print Assumptions C09_rank0_ctor_leak_refuted.
